@@ -1016,6 +1016,17 @@ pub fn place_leg(args: &Args) {
                 "histories_compared": builds_for(&mut rng_from(0, 0), &cfg.members, 8).iter().map(|b| b.class.clone()).collect::<BTreeSet<_>>()}));
         }
     }
+    // (B') large rings (tens of thousands of positions): many nodes at the default 150 virtual nodes, few nodes at
+    //      thousands of virtual nodes. Placement must stay a function of the membership set whatever the ring size.
+    if args.shard == 0 {
+        let big: Vec<(Vec<u64>, usize, u32)> = vec![((1..=120).collect(), 3, 150), ((1..=6).collect(), 3, 4096), ((1..=40).rev().collect(), 2, 600)];
+        for (members, rf, vn) in big.into_iter().take(if args.thorough() { 3 } else { 2 }) {
+            let cfg = Cfg::new(members, rf, vn);
+            run_cfg(&mut rep, &mut rng, &cfg, &keys[..keys.len().min(300)], "large-ring", 3, 120, 1);
+            rep.count("large_ring_configs");
+            rep.max("ring_positions", cfg.members.len() as u64 * cfg.vn as u64);
+        }
+    }
     // (C) from_config grid, (D) fingerprint
     from_config_grid(&mut rep, args, &keys);
     rep.evaluations += 1;
